@@ -132,7 +132,7 @@ def setup_work(work, present):
         open(os.path.join(work, n), "w").close()
     for pid in present:
         open(os.path.join(work, "f%d" % pid), "w").write("INIT%d\n" % pid)
-    for i in range(2, 40, 2):
+    for i in range(30, 40, 2):
         os.makedirs(os.path.join(work, "d%d" % i), exist_ok=True)
 
 
@@ -539,7 +539,7 @@ def run_sequence(ctx, steps, seqid, strace=False, extra_fds=(), present=()):
 
 
 # ---------------------------------------------------------------- generators
-def gen_stage(rng, i, n, step_paths, unop, capture, weights):
+def gen_stage(rng, i, n, step_paths, unop_pool, capture, weights):
     """one random stage; path ids are unique inside a step (two opens of one file in one step race)"""
     r = rng.random()
     kind = "E"
@@ -552,7 +552,8 @@ def gen_stage(rng, i, n, step_paths, unop, capture, weights):
     if r < weights.get("here", 0.15):
         frm = "h"
     elif r < weights.get("here", 0.15) + weights.get("from", 0.1):
-        frm = "<%d" % step_paths.pop()
+        # a directory can be opened for reading, so an unopenable source is a path under a missing directory (odd id)
+        frm = "<%d" % (rng.choice([31, 33, 35, 37]) if rng.random() < weights.get("unopenable", 0.1) else step_paths.pop())
     redirs = []
     if rng.random() < weights.get("redir", 0.5):
         for _ in range(rng.randint(1, weights.get("maxredir", 3))):
@@ -562,7 +563,8 @@ def gen_stage(rng, i, n, step_paths, unop, capture, weights):
             elif c < 0.35:
                 redirs.append("1&2")
             else:
-                redirs.append("%s%s%d" % (rng.choice("12"), rng.choice("ta"), step_paths.pop()))
+                tgt = unop_pool.pop() if (unop_pool and rng.random() < weights.get("unopenable", 0.1)) else step_paths.pop()
+                redirs.append("%s%s%d" % (rng.choice("12"), rng.choice("ta"), tgt))
     if kind == "B":
         b = rng.choice(sorted(k for k in BUILTINS if k != "minfd"))
         return mk_stage("B", frm if n > 1 else "-", redirs, BUILTINS[b][0], builtin=b)
@@ -574,11 +576,13 @@ def gen_stage(rng, i, n, step_paths, unop, capture, weights):
 
 def gen_step(rng, weights, maxn=6):
     n = rng.choice([1, 1, 2, 2, 3, 4, 5, 6][:maxn + 2])
-    paths = list(range(2, 38))
+    paths = list(range(2, 30))
     rng.shuffle(paths)
+    pool = list(range(30, 38))
+    rng.shuffle(pool)
     capture = rng.random() < weights.get("capture", 0.15)
     unop = set()
-    st = [gen_stage(rng, i, n, paths, unop, capture, weights) for i in range(n)]
+    st = [gen_stage(rng, i, n, paths, pool, capture, weights) for i in range(n)]
     used = set()
     for s in st:
         for r in s["redirs"]:
@@ -586,9 +590,7 @@ def gen_step(rng, weights, maxn=6):
                 used.add(int(r[2:]))
         if s["frm"].startswith("<"):
             used.add(int(s["frm"][1:]))
-    for p in used:
-        if rng.random() < weights.get("unopenable", 0.1):
-            unop.add(p)
+    unop = set(p for p in used if p >= 30)
     return {"stages": st, "capture": capture, "unop": unop}
 
 
